@@ -247,7 +247,8 @@ def rename_protocols(cfg, mapping):
 def post_variations(rng, cfg):
     """other legal spellings of a description: none of them changes what floogen should build"""
     if rng.random() < 0.08:
-        stem = rng.choice(["dma", "m", "axi_lite", "p0"])
+        # … also a stem that is the name of an endpoint (`hbm` using protocol `hbm_out`: port `hbm_hbm_out_req_o`)
+        stem = rng.choice(["dma", "m", "axi_lite", "p0", rng.choice(cfg["endpoints"])["name"]])
         if cfg["network_type"] == "axi":
             rename_protocols(cfg, {"axi_in": stem + "_in", "axi_out": stem + "_out"})
         else:
@@ -313,6 +314,13 @@ def post_variations(rng, cfg):
             for p in cfg["protocols"]:
                 if p.get("type") == drop and "direction" not in p:
                     p["direction"] = "input" if p["name"].endswith("_in") else "output"
+    if rng.random() < 0.06:
+        # free-text descriptions (of an endpoint, a router, a connection): never part of what is generated
+        e = rng.choice(cfg["endpoints"])
+        e["description"] = rng.choice(["main memory", "first line\nsecond line of the description",
+                                       "with a */ and a // inside", "trailing backslash \\"])
+        if rng.random() < 0.5:
+            rng.choice(cfg["connections"])["description"] = "link\nwith two lines"
     if rng.random() < 0.03 and len(cfg["endpoints"]) > 2:
         # an unpopulated slot: an endpoint without any port
         cands = [e for e in cfg["endpoints"] if "array" not in e]
@@ -525,7 +533,7 @@ def mesh_parts(rng, algo, nettype, alloc, m, n, rname, sides=None, partial_local
         ep["xy_id_offset"] = {"x": rng.randint(1, 5), "y": rng.choice([0, 0, 2])}
         if rng.random() < 0.5:
             ep["xy_id_offset"]["port_id"] = rng.randint(1, 3)      # not a key of the offset: ignored
-        eps.append(ep)
+        eps.insert(rng.randint(0, len(eps)), ep)       # anywhere in the declaration order: its offset is its own
         conns.append({"src": ename, "dst": rname, "dst_idx": [m - 1, rng.randrange(n)], "dst_dir": "East"})
     return eps, conns, (6 if extra_port else 5)
 
@@ -713,6 +721,22 @@ def gen_tree_manual(rng, algo, nettype):
              {"src": "router", "src_idx": [0], "dst": "router", "dst_idx": [1, 0]},
              {"src": "router", "src_idx": [1], "dst": "router", "dst_idx": [0, 0]}]
     return finish(rng, cfg, [leaf, host], [{"name": "router", "tree": [2, 1], "auto_connect": False}], conns, shuffle=False)
+
+
+def gen_tree_fan_dirs(rng, algo, nettype):
+    """a router tree [1, 3] wired by hand with one multi connection (the three leaves onto the root) that names the
+    port on the many side: every leaf's uplink sits on its port 0, the root's ports are free"""
+    aw = 48
+    cfg = base_cfg(rng, "fandirs", nettype, algo, aw)
+    alloc = AddrAlloc(rng, aw)
+    leaf = mk_endpoint(rng, nettype, alloc, "tile", array=[3], force_role="dual")
+    host = mk_endpoint(rng, nettype, alloc, "host", force_role="dual")
+    up = {"src": "router", "src_lvl": 1, "dst": "router", "dst_lvl": 0, "src_dir": 0, "allow_multi": True}
+    conns = [up if rng.random() < 0.5 else flip_conn(up),
+             {"src": "tile", "dst": "router", "src_range": [[0, 2]], "dst_lvl": 1},
+             {"src": "host", "dst": "router", "dst_idx": [0]}]
+    return finish(rng, cfg, [leaf, host], [{"name": "router", "tree": [1, 3], "auto_connect": False, "degree": 4}], conns,
+                  shuffle=False)
 
 
 def gen_degree_mesh(rng, algo, nettype, degree, double_eject=False):
@@ -1035,6 +1059,6 @@ def _retrying(f):
 
 for _n in ("gen_star", "gen_mesh", "gen_mesh_extra", "gen_tree", "gen_torus", "gen_chain_hub", "gen_tree_bypass",
            "gen_overfull", "gen_degree_mesh", "gen_ring_eject", "gen_hub_bypass", "gen_chain_xbar", "gen_tree_manual",
-           "gen_partial_side", "gen_name_prefix_routers", "gen_chain_express", "gen_deep_tree"):
+           "gen_partial_side", "gen_name_prefix_routers", "gen_chain_express", "gen_deep_tree", "gen_tree_fan_dirs"):
     if _n in globals():
         globals()[_n] = _retrying(globals()[_n])
